@@ -256,6 +256,20 @@ impl Runtime {
         bad
     }
 
+    /// Allocation numbers of all objects reachable from the roots of any live thread.
+    pub fn verif_reachable_all(&self) -> Vec<u32> {
+        let mut roots = vec![];
+        for t in self.verif_all_threads() {
+            if t.done && !t.is_main {
+                continue;
+            }
+            roots.extend(t.verif_roots());
+        }
+        let (mut r, _) = walk(roots);
+        r.sort();
+        r
+    }
+
     /// Allocation numbers of all objects reachable from the roots of thread `id`.
     pub fn verif_reachable_from(&self, id: u64) -> Vec<u32> {
         let mut roots = vec![];
